@@ -72,8 +72,10 @@ func (c *Cluster) onLogReplayed(inc *Incarnation, old, now *Mirror) {
 			cands = append(cands, &Mirror{Entries: []MEntry{{Index: p.index, Term: p.term, Placeholder: true}}})
 		}
 	}
-	if c.Cfg.LostUnsynced && p == nil {
-		// Trailing entries that no returned fsync ever covered may be gone after a power loss.
+	if c.Cfg.LostUnsynced && (p == nil || p.kind == "append") {
+		// Trailing entries that no returned fsync ever covered may be gone after a power loss
+		// (a prefix of the un-synced bytes survives: if part of that tail is gone, so is an
+		// append that was in flight behind it).
 		for k := 1; k <= old.Unsynced && k < len(old.Entries); k++ {
 			cands = append(cands, &Mirror{Entries: append([]MEntry(nil), old.Entries[:len(old.Entries)-k]...)})
 		}
@@ -740,7 +742,9 @@ func (r *Recorder) checkInstanceComplete(inc *Incarnation, a *authSeq) {
 	// or it holds an index that no committed operation has.
 	for k, o := range ops {
 		if k > 0 && o.Index <= ops[k-1].Index {
-			r.violate("C10", "replica-applied-twice", r.tainted(inc.Node, "sequence", "F1", "F2"), "%s: its %d-th applied operation is index %d, after index %d (applied-twice)",
+			// (Run-level attribution: a duplicate or a gap travels from node to node inside snapshots,
+			// so the node that shows it need not be the node that showed the signature.)
+			r.violate("C10", "replica-applied-twice", r.taintedAny("sequence", "F1", "F2"), "%s: its %d-th applied operation is index %d, after index %d (applied-twice)",
 				inc.Name(), k+1, o.Index, ops[k-1].Index)
 			break
 		}
@@ -759,7 +763,7 @@ func (r *Recorder) checkInstanceComplete(inc *Incarnation, a *authSeq) {
 			break
 		}
 		if !have[idx] {
-			r.violate("C10", "replica-skipped", r.tainted(inc.Node, "sequence", "F3", "F2r"), "%s: the %d-th committed operation (index %d) was never applied, although the replica applied up to index %d (skipped)",
+			r.violate("C10", "replica-skipped", r.taintedAny("sequence", "F3", "F2r"), "%s: the %d-th committed operation (index %d) was never applied, although the replica applied up to index %d (skipped)",
 				inc.Name(), k+1, idx, max)
 			break
 		}
